@@ -30,6 +30,7 @@ SIG_DJKREV = "dijkstra-multilink-route-reversed"
 SIG_DFCH = "dragonfly-first-chassis-assumed"
 SIG_BYPSELF = "bypass-gateway-is-end-point"
 SIG_DF = "dragonfly-groups-exceed-blades"
+SIG_HBYPX = "host-bypass-across-zones"
 
 
 # ------------------------------------------------------------------------------------------- abstract platform
@@ -592,7 +593,10 @@ def classify(ctx, plats, out, tag, workers=1):
         why = ""
         da = devacc.get((pi, rec["s"], rec["d"], tuple(rec["ids"]))) if "ids" in rec else None
         dfl = set(f for a in (da or []) for f in a["fl"])
-        if da and "djkrev" in dfl:
+        if da and "hbypskip" in dfl and "hbypx" in flags:
+            sig, why = SIG_HBYPX, ("accepted by the machine that ignores the bypass route declared for two end points that "
+                                   "are not both direct members of the declaring zone")
+        elif da and "djkrev" in dfl:
             sig, why = SIG_DJKREV, "accepted by the machine that reverses the links of the multi-link routes of Dijkstra zones"
         elif "djkpre" in flags and "ids" in rec:
             sig, why = SIG_DJKREV, "the links of the Dijkstra zone are put in front of the route under construction"
@@ -608,6 +612,7 @@ def classify(ctx, plats, out, tag, workers=1):
             sig, why = SIG_DFCH, "dragonfly route inside a group starting from a router outside the first chassis"
         elif "dfgate" in flags:
             sig, why = SIG_DF, "dragonfly with more groups than routers per chassis"
+        rec["exp_fl"] = sorted(flags)
         res.append((pi, rec, sig, why, e))
     # the expected routes of a few unexplained rejections, for the report
     un = [k for k, x in enumerate(res) if x[2] is None and x[1]["s"] != "?"][:6]
@@ -929,6 +934,180 @@ def gen_hier(rng, name, levels=None, max_hosts=40, style=None):
     return p
 
 
+def _bd_leaf(p, rng, nm, parent, nh):
+    """a small leaf zone (Full, Floyd or Star) with nh hosts and a router that is its gateway (never an end point);
+    returns (zone name, router, hosts)"""
+    kind = rng.choice(["full", "full", "floyd", "star"])
+    z = nm("z")
+    p.zone(z, kind, parent)
+    hs = []
+    for _ in range(nh):
+        h = nm("h")
+        p.host(h, z)
+        hs.append(h)
+    r = nm("r")
+    p.router(r, z)
+    pool = []
+    if kind == "full":
+        members = hs + [r]
+        for i in range(len(members)):
+            for j in range(i + 1, len(members)):
+                a, b = members[i], members[j]
+                if rng.random() < 0.6:
+                    p.route(z, a, b, None, None, _route_links(p, rng, nm, z, pool, 2), True)
+                else:
+                    p.route(z, a, b, None, None, _route_links(p, rng, nm, z, pool, 2), False)
+                    p.route(z, b, a, None, None, _route_links(p, rng, nm, z, pool, 2), False)
+        if len(hs) >= 2 and rng.random() < 0.4:     # a bypass route between two hosts of the zone
+            a, b = rng.sample(hs, 2)
+            p.bypass(z, a, b, None, None, _mk_links(p, rng, nm, z, rng.randint(1, 2), 0))
+    elif kind == "floyd":
+        _sp_graph(p, rng, nm, z, hs + [r], pool)
+    else:
+        for h in hs:
+            up = _mk_links(p, rng, nm, z, rng.choice([1, 1, 2]), 0.5)
+            if rng.random() < 0.7:
+                p.route(z, h, None, None, None, up, True)
+            else:
+                p.route(z, h, None, None, None, up, False)
+                p.route(z, None, h, None, None, _mk_links(p, rng, nm, z, rng.choice([1, 2]), 0.0), False)
+    return z, r, hs
+
+
+def gen_bypass_depths(rng, name, cross_host=True):
+    """Platforms dedicated to the lookup of bypass routes (NetZoneImpl::get_bypass_route): three levels; the zone Z of
+    level 1 (Full, Floyd or Star) declares the routes between its children and several bypass routes between zones
+    taken at any depth below two different children (child <-> child, child <-> grand-child, grand-child <->
+    grand-child, in both directions, several of them applying to the same pair of hosts), used by hosts that sit at
+    the same or at different depths (directly in a child of Z / in a grand-child).  cross_host: Z also declares bypass
+    routes between two hosts of different zones (documentation: "between any hosts, even if they are not in the same
+    zone").  Built so that no recorded defect is on the way of the routes that use a bypass: every gateway is a router
+    that is a direct member of its zone (never an end point), no Dijkstra or Dragonfly zone, and with three levels no
+    zone route is taken on the way up to the gateway of a bypass."""
+    p = Plat(name)
+    nm = Namer()
+    zk = rng.choice(["full", "full", "floyd", "star"])
+    Z = nm("z")
+    p.zone(Z, zk)
+    kids = []      # dicts z, gw, subs [(zone, router, hosts)], hosts (direct), deep
+
+    def deep_kid():
+        a = nm("z")
+        p.zone(a, "star", Z)
+        gw = nm("r")
+        p.router(gw, a)
+        bb = None
+        if rng.random() < 0.3:
+            bb = nm("l")
+            p.link(bb, a, rng.randint(0, 9))
+        direct = []
+        for _ in range(rng.choice([1, 1, 2])):
+            h = nm("h")
+            p.host(h, a)
+            up = _mk_links(p, rng, nm, a, rng.choice([1, 1, 2]), 0.4) + ([bb] if bb else [])
+            p.route(a, h, None, None, None, up, True)
+            direct.append(h)
+        if len(direct) == 2 and rng.random() < 0.5:      # a bypass route between two hosts of the zone
+            p.bypass(a, direct[0], direct[1], None, None, _mk_links(p, rng, nm, a, 1, 0))
+        subs = []
+        for _ in range(rng.choice([1, 2, 2])):
+            sz, sr, shs = _bd_leaf(p, rng, nm, a, rng.choice([1, 1, 2]))
+            # mostly one-link routes between a sub-zone and the star (a multi-link route taken on the way up is returned
+            # reversed: recorded defect; it is not on the way of the routes using a bypass of Z)
+            up = _mk_links(p, rng, nm, a, 1, 0.4) + ([bb] if bb and rng.random() < 0.3 else [])
+            if rng.random() < 0.7:
+                p.route(a, sz, None, sr, None, up, True)
+            else:
+                p.route(a, sz, None, sr, None, up, False)
+                p.route(a, None, sz, None, sr, _mk_links(p, rng, nm, a, 1, 0), False)
+            subs.append((sz, sr, shs))
+        if len(subs) == 2 and rng.random() < 0.4:        # a bypass route between the two sub-zones (same depth)
+            (s1, r1, _), (s2, r2, _) = subs
+            p.bypass(a, s1, s2, r1, r2, _mk_links(p, rng, nm, a, rng.randint(1, 2), 0))
+        return {"z": a, "gw": gw, "subs": subs, "hosts": direct, "deep": True}
+
+    def flat_kid():
+        z, r, hs = _bd_leaf(p, rng, nm, Z, rng.choice([1, 2]))
+        return {"z": z, "gw": r, "subs": [], "hosts": hs, "deep": False}
+
+    kids.append(deep_kid())
+    kids.append(deep_kid() if rng.random() < 0.5 else flat_kid())
+    if rng.random() < 0.5:
+        kids.append(flat_kid() if rng.random() < 0.6 else deep_kid())
+    rng.shuffle(kids)
+    gwof = {k["z"]: k["gw"] for k in kids}
+    pool = []
+    if zk == "full":
+        for i in range(len(kids)):
+            for j in range(i + 1, len(kids)):
+                a, b = kids[i]["z"], kids[j]["z"]
+                if rng.random() < 0.6:
+                    p.route(Z, a, b, gwof[a], gwof[b], _route_links(p, rng, nm, Z, pool), True)
+                else:
+                    p.route(Z, a, b, gwof[a], gwof[b], _route_links(p, rng, nm, Z, pool), False)
+                    p.route(Z, b, a, gwof[b], gwof[a], _route_links(p, rng, nm, Z, pool), False)
+    elif zk == "floyd":
+        _sp_graph(p, rng, nm, Z, [k["z"] for k in kids], pool, gw=lambda a, b: gwof[a])
+    else:
+        r = nm("r")
+        p.router(r, Z)
+        if rng.random() < 0.5:                           # a host directly in Z: no bypass applies to it
+            h = nm("h")
+            p.host(h, Z)
+            p.route(Z, h, None, None, None, _mk_links(p, rng, nm, Z, rng.choice([1, 2]), 0.4), True)
+        for k in kids:
+            up = _mk_links(p, rng, nm, Z, rng.choice([1, 2]), 0.4)
+            if rng.random() < 0.7:
+                p.route(Z, k["z"], None, k["gw"], None, up, True)
+            else:
+                p.route(Z, k["z"], None, k["gw"], None, up, False)
+                p.route(Z, None, k["z"], None, k["gw"], _mk_links(p, rng, nm, Z, rng.choice([1, 2]), 0), False)
+    # ---- bypass routes of Z between zones below two different children
+    keys = {k["z"]: [(k["z"], k["gw"], 0)] + [(sz, sr, 1) for sz, sr, _ in k["subs"]] for k in kids}
+    declared = set()
+
+    def byp(ka, kb):
+        if (ka[0], kb[0]) in declared:
+            return
+        declared.add((ka[0], kb[0]))
+        p.bypass(Z, ka[0], kb[0], ka[1], kb[1], _mk_links(p, rng, nm, Z, rng.randint(1, 2), 0))
+
+    deep = [k for k in kids if k["deep"]]
+    A = rng.choice(deep)
+    B = rng.choice([k for k in kids if k is not A])
+    # the child A (it has grand-children) <-> the child B, both directions: found at the indices (1, 0) / (0, 1) by a
+    # host of a grand-child of A talking to a host that is directly in B
+    byp(keys[A["z"]][0], keys[B["z"]][0])
+    byp(keys[B["z"]][0], keys[A["z"]][0])
+    if B["deep"] and rng.random() < 0.6:
+        # two bypasses that apply to the same hosts (grand-child of A -> grand-child of B), found at the indices (0, 1)
+        # and (1, 0): the order of the lookup decides
+        ka, kb = rng.choice(keys[A["z"]][1:]), rng.choice(keys[B["z"]][1:])
+        byp(ka, keys[B["z"]][0])
+        byp(keys[A["z"]][0], kb)
+    cands = [(ka, kb) for x in kids for y in kids if x is not y for ka in keys[x["z"]] for kb in keys[y["z"]]]
+    skew = [c for c in cands if c[0][2] != c[1][2]]
+    rng.shuffle(cands)
+    rng.shuffle(skew)
+    # a grand-child <-> a child (zones of different depths), then any pairs
+    for c in skew[:rng.choice([1, 2])] + cands[:rng.choice([1, 2, 3])]:
+        byp(*c)
+    # ---- bypass routes of Z between two hosts of different children
+    nhx = 0
+    if cross_host:
+        def hosts_of(k):
+            return [(h, 0) for h in k["hosts"]] + [(h, 1) for _, _, hs in k["subs"] for h in hs]
+        hp = [(a, b) for x in kids for y in kids if x is not y for a in hosts_of(x) for b in hosts_of(y)]
+        rng.shuffle(hp)
+        hp.sort(key=lambda ab: ab[0][1] == ab[1][1])       # hosts at different depths first
+        for (a, _), (b, _) in hp[:rng.choice([1, 2])]:
+            p.bypass(Z, a, b, None, None, _mk_links(p, rng, nm, Z, rng.randint(1, 2), 0))
+            nhx += 1
+    p.pairs = p.all_pairs()
+    p.meta = {"levels": 3, "style": "bypass-depths", "top": zk, "zone_bypasses": len(declared), "cross_zone_host_bypasses": nhx}
+    return p
+
+
 def _zpath(p, zi):
     out = []
     while zi:
@@ -1207,7 +1386,9 @@ def run_check(ctx, plats, chunk, nontrivial, rule, mc_pairs=None):
     """chunks of platforms are processed in parallel (driver runs, one M and one T TLC run per chunk), rejections are
     classified and confirmed by running the implementation a second time, then reported from the main thread."""
     ctx.cov["rule"] = rule
-    chunks = [list(range(i, min(len(plats), i + chunk))) for i in range(0, len(plats), chunk)]
+    # chunk: a size, or the explicit list of the chunks (lists of platform indices)
+    chunks = [list(c) for c in chunk] if isinstance(chunk, (list, tuple)) \
+        else [list(range(i, min(len(plats), i + chunk))) for i in range(0, len(plats), chunk)]
     # one TLC worker per run: the inputs and tables live in TLC registers (TLCSet) and are shared, not deep-normalised
     # values; parallelism comes from running the chunks in separate TLC processes
     npar = max(1, min(max(2, (3 * vlib.NCPU) // 4), len(chunks)))
